@@ -24,6 +24,7 @@ class MethodSpec:
         self.nested = []          # (impl blocks) nested dependency calls: (method, fn_id, arg, is_async)
         self.pre = ""             # extra statements at the start of an implementation body
         self.typed_recv = False   # write the receiver as `self: &Self` / `self: &'a Self`
+        self.recv_mut = False     # `&mut self` (set by C07 for statically delegated traits only)
 
     def generics_text(self, extra_first=None):
         items = list(self.lifetimes)
@@ -48,8 +49,10 @@ class MethodSpec:
         raise ValueError(self.ret)
 
     def trait_sig(self):
-        recv = "&%sself" % ((self.self_lt + " ") if self.self_lt else "")
-        if self.typed_recv:
+        recv = "&%s%sself" % ((self.self_lt + " ") if self.self_lt else "", "mut " if self.recv_mut else "")
+        if self.typed_recv and self.recv_mut:
+            recv = "self: &%smut Self" % ((self.self_lt + " ") if self.self_lt else "")
+        elif self.typed_recv:
             recv = "self: &%sSelf" % ((self.self_lt + " ") if self.self_lt else "")
         ps = [recv] + [p.decl() for p in self.params]
         return "%sfn %s%s(%s)%s" % ("async " if self.is_async else "", self.name, self.generics_text(), ", ".join(ps), self.ret_text())
@@ -217,6 +220,9 @@ def random_trait(rng, name="Tr", dyn_safe=False, allow_async=True, with_async_tr
         t.where.append("G: ::core::marker::Sized")
     if t.supers and rng.random() < 0.25:
         t.trailing_plus = True
+    if rng.random() < 0.15:
+        # a where clause that constrains `Self` (present with and without generic parameters)
+        t.where.append("Self: 'static")
     return t
 
 
